@@ -2,20 +2,16 @@ import Proofs.C05ValueColl
 /-!
   C05 (no bytes from the network can crash the application), part 2: value decoders.
 
-  FULL PROPERTY (does not hold for the code as it is):
-      ∀ proto (t : CT) (dst : Dest) (data : Option Bytes), ∀ s, unmarshal false proto t dst data ≠ .crash s
-
-  What is proved here, for ALL protocol versions, type trees, destinations and byte strings:
-    * `C05_values_crash_sites`   : a crash of the code as it is happens at one of the seven `known`
-                                   sites; every other index / slice / make / reflect-index operation
-                                   of the decoders (the sites `idx`, `sliceFrom`, `sliceTo`,
-                                   `reflectBounds` of Model.CrashValue) is in bounds.
-    * `C05_values_total_partial` : outside `knownBad` (decidable) there is no crash; `knownBad` is exact.
-    * per-site conditions        : `C05_list_negative_crashes`, `C05_date_short_crashes`,
-                                   `C05_readBytes_crash_iff`, `C05_ifs_short_crashes`
-    * one kernel-checked counterexample per known site (`C05_cex_*`, by `decide`; the witnesses are
-      the `ops` of props/C05.val.findings.json and replay on the real code).
-  The fixed variant (all inputs, no exclusion) is in Proofs/C05ValueFixed.lean.
+  FULL PROPERTY, proved for ALL protocol versions, type trees, destinations and byte strings:
+      ∀ proto (t : CT) (dst : Dest) (data : Option Bytes), ∀ s, unmarshal proto t dst data ≠ .crash s
+  (`C05_values_total`): every index / slice / make / reflect-index operation of the decoders (the sites
+  `idx`, `sliceFrom`, `sliceTo`, `reflectBounds` of Model.CrashValue) is in bounds, behind the guard
+  that precedes it. The model is the code after the repairs of KF-C05-12, 15, 16, 17, 18, 19, 21; the
+  inputs that crashed the code before the repairs are errors now (`C05_former_witnesses_are_errors`,
+  the `ops` of the findings, replayed on the real code by the check).
+  Allocation: the element count handed to reflect.MakeSlice / MakeMapWithSize is bounded by the bytes
+  left (`C05_alloc_bound`, `C05_map_alloc_bound`), and the guard that enforces it rejects nothing that
+  would have decoded (`C05_count_guard_conservative`).
 -/
 namespace C05Value
 open CrashValue
@@ -35,15 +31,15 @@ theorem tupleSlots_nocrash {g : GT} {n : Nat} {s : Site} : tupleSlots g n ≠ so
   unfold tupleSlots
   split <;> first | (split <;> simp) | simp
 
-theorem safe_if {fx : Bool} {α : Type} {c : Prop} [Decidable c] {a b : Res α} (h1 : Safe fx a) (h2 : Safe fx b) :
-    Safe fx (if c then a else b) := by split <;> assumption
+theorem safe_if {α : Type} {c : Prop} [Decidable c] {a b : Res α} (h1 : Safe a) (h2 : Safe b) :
+    Safe (if c then a else b) := by split <;> assumption
 
-theorem setSlot_safe (fx : Bool) (slots : List Slot) (i : Nat) (src : GT) (h : i < slots.length) :
-    Safe fx (setSlot fx slots i src) := by
+theorem setSlot_safe (slots : List Slot) (i : Nat) (src : GT) (h : i < slots.length) :
+    Safe (setSlot slots i src) := by
   unfold setSlot
   have : slots[i]? = some slots[i] := List.getElem?_eq_getElem h
   rw [this]
-  exact safe_if (safe_ok _) (safe_crashOrErr known_tupleReflect)
+  exact safe_if (safe_ok _) safe_err
 
 theorem readCS4 (proto : Nat) (a b c x : UInt8) (rest : Bytes) (hp : proto > 2) :
     readCollectionSize proto (a :: b :: c :: x :: rest) = .ok (i32 a b c x, 4) := by
@@ -55,38 +51,19 @@ theorem readInt4 (a b c x : UInt8) (rest : Bytes) : readInt (a :: b :: c :: x ::
 theorem sliceFrom4 (fn : Fn) (a b c x : UInt8) (rest : Bytes) : sliceFrom fn (a :: b :: c :: x :: rest) 4 = .ok rest := by
   rw [sliceFrom_ok (by simp)]; rfl
 
-theorem readBytes_crash_iff_gen (d : Bytes) (v : Int) (h4 : 4 ≤ d.length) (hv : readInt d = .ok v) :
-    (∃ s, readBytes false d = .crash s) ↔ (0 ≤ v ∧ d.length - 4 < v.toNat) := by
-  simp only [readBytes, hv, ok_bind, sliceFrom_ok h4, fixGuard, Bool.false_and, Bool.false_eq_true, if_false]
-  have hl : (List.drop 4 d).length = d.length - 4 := by simp
-  by_cases hneg : v < 0
-  · simp only [hneg, if_true]
-    constructor
-    · rintro ⟨s, hs⟩; cases hs
-    · intro h; omega
-  · by_cases hfit : v.toNat ≤ (List.drop 4 d).length
-    · simp only [hneg, if_false, sliceTo_ok hfit, sliceFrom_ok hfit, ok_bind]
-      constructor
-      · rintro ⟨s, hs⟩; cases hs
-      · intro h; omega
-    · simp only [hneg, if_false, sliceTo, hfit, crash_bind]
-      constructor
-      · intro _; omega
-      · intro _; exact ⟨_, rfl⟩
-
 /-! ### the decoders are Safe: structural induction over the type tree -/
 
 mutual
-theorem core_safe (fx : Bool) (proto : Nat) : ∀ (t : CT) (g : GT) (d : Option Bytes), Safe fx (core fx proto t g d)
+theorem core_safe (proto : Nat) : ∀ (t : CT) (g : GT) (d : Option Bytes), Safe (core proto t g d)
   | .nat n, g, d => by
-      simp only [core]; exact scalar_safe fx n g d
+      simp only [core]; exact scalar_safe n g d
   | .list e, g, d => by
       simp only [core]
-      exact unmarshalList_safe fx proto _ (fun g' d' => unmG_safe (core_safe fx proto e) g' d') g d
+      exact unmarshalList_safe proto _ (fun g' d' => unmG_safe (core_safe proto e) g' d') g d
   | .map k v, g, d => by
       simp only [core]
-      exact unmarshalMap_safe fx proto _ _ (fun g' d' => unmG_safe (core_safe fx proto k) g' d')
-        (fun g' d' => unmG_safe (core_safe fx proto v) g' d') g d
+      exact unmarshalMap_safe proto _ _ (fun g' d' => unmG_safe (core_safe proto k) g' d')
+        (fun g' d' => unmG_safe (core_safe proto v) g' d') g d
   | .tuple es, g, d => by
       simp only [core]
       split
@@ -94,31 +71,31 @@ theorem core_safe (fx : Bool) (proto : Nat) : ∀ (t : CT) (g : GT) (d : Option 
       · simp
       · rename_i s h; exact absurd h tupleSlots_nocrash
       · rename_i slots h
-        exact tupleLoop_safe fx proto es 0 slots _ (by rw [tupleSlots_length h]; omega)
+        exact tupleLoop_safe proto es 0 slots _ (by rw [tupleSlots_length h]; omega)
   | .udt fs, g, d => by
       simp only [core]
       split
       · split
         · simp
-        · exact udtMapLoop_safe fx proto fs _
+        · exact udtMapLoop_safe proto fs _
       · split
         · simp
         · split
           · simp
-          · exact udtStructLoop_safe fx proto fs _ _
-theorem tupleLoop_safe (fx : Bool) (proto : Nat) : ∀ (es : List CT) (i : Nat) (slots : List Slot) (d : Bytes),
-    i + es.length ≤ slots.length → Safe fx (tupleLoop fx proto es i slots d)
+          · exact udtStructLoop_safe proto fs _ _
+theorem tupleLoop_safe (proto : Nat) : ∀ (es : List CT) (i : Nat) (slots : List Slot) (d : Bytes),
+    i + es.length ≤ slots.length → Safe (tupleLoop proto es i slots d)
   | [], _, _, _, _ => by simp only [tupleLoop]; simp
   | e :: es, i, slots, d, h => by
       simp only [tupleLoop]
       simp only [List.length_cons] at h
-      apply safe_bind (tupleField_safe fx d); intro pd _
-      apply safe_bind (goType_safe fx e); intro gt _
-      apply safe_bind (unmG_safe (core_safe fx proto e) gt pd.1); intro _ _
-      apply safe_bind (setSlot_safe fx slots i gt (by omega)); intro _ _
-      exact tupleLoop_safe fx proto es (i+1) slots pd.2 (by omega)
-theorem udtMapLoop_safe (fx : Bool) (proto : Nat) : ∀ (fs : List (Nat × CT)) (d : Bytes),
-    Safe fx (udtMapLoop fx proto fs d)
+      apply safe_bind (tupleField_safe d); intro pd _
+      apply safe_bind (goType_safe e); intro gt _
+      apply safe_bind (unmG_safe (core_safe proto e) gt pd.1); intro _ _
+      apply safe_bind (setSlot_safe slots i gt (by omega)); intro _ _
+      exact tupleLoop_safe proto es (i+1) slots pd.2 (by omega)
+theorem udtMapLoop_safe (proto : Nat) : ∀ (fs : List (Nat × CT)) (d : Bytes),
+    Safe (udtMapLoop proto fs d)
   | [], _ => by simp only [udtMapLoop]; simp
   | (_, e) :: fs, d => by
       simp only [udtMapLoop]
@@ -127,12 +104,12 @@ theorem udtMapLoop_safe (fx : Bool) (proto : Nat) : ∀ (fs : List (Nat × CT)) 
       · split
         · simp
         · rename_i h0 h4
-          apply safe_bind (goType_safe fx e); intro gt _
-          apply safe_bind (readBytes_safe fx (by omega)); intro pd _
-          apply safe_bind (unmG_safe (core_safe fx proto e) gt pd.1); intro _ _
-          exact udtMapLoop_safe fx proto fs pd.2
-theorem udtStructLoop_safe (fx : Bool) (proto : Nat) : ∀ (fs : List (Nat × CT)) (sf : List UField) (d : Bytes),
-    Safe fx (udtStructLoop fx proto fs sf d)
+          apply safe_bind (goType_safe e); intro gt _
+          apply safe_bind (readBytes_safe (by omega)); intro pd _
+          apply safe_bind (unmG_safe (core_safe proto e) gt pd.1); intro _ _
+          exact udtMapLoop_safe proto fs pd.2
+theorem udtStructLoop_safe (proto : Nat) : ∀ (fs : List (Nat × CT)) (sf : List UField) (d : Bytes),
+    Safe (udtStructLoop proto fs sf d)
   | [], _, _ => by simp only [udtStructLoop]; simp
   | (nm, e) :: fs, sf, d => by
       simp only [udtStructLoop]
@@ -141,144 +118,120 @@ theorem udtStructLoop_safe (fx : Bool) (proto : Nat) : ∀ (fs : List (Nat × CT
       · split
         · simp
         · rename_i h0 h4
-          apply safe_bind (readBytes_safe fx (by omega)); intro pd _
+          apply safe_bind (readBytes_safe (by omega)); intro pd _
           split
-          · exact udtStructLoop_safe fx proto fs sf pd.2
+          · exact udtStructLoop_safe proto fs sf pd.2
           · rename_i f _
             split
-            · apply safe_bind (unmG_safe (core_safe fx proto e) f.ty pd.1); intro _ _
-              exact udtStructLoop_safe fx proto fs sf pd.2
-            · exact safe_crashOrErr known_udtReflect
+            · apply safe_bind (unmG_safe (core_safe proto e) f.ty pd.1); intro _ _
+              exact udtStructLoop_safe proto fs sf pd.2
+            · exact safe_err
 end
 
-theorem ifsLoop_safe (fx : Bool) (proto : Nat) : ∀ (es : List CT) (i : Nat) (ds : List GT) (d : Bytes),
-    Safe fx (ifsLoop fx proto es i ds d)
-  | [], _, _, _ => by simp [ifsLoop]
-  | e :: es, i, ds, d => by
+/-- `v[i]` in the `[]interface{}` path is in bounds: the loop is entered only when
+    `len(v) >= len(tuple.Elems)` -/
+theorem ifsLoop_safe (proto : Nat) : ∀ (es : List CT) (i : Nat) (ds : List GT) (d : Bytes),
+    i + es.length ≤ ds.length → Safe (ifsLoop proto es i ds d)
+  | [], _, _, _, _ => by simp [ifsLoop]
+  | e :: es, i, ds, d, h => by
       simp only [ifsLoop]
-      apply safe_bind (tupleField_safe fx d); intro pd _
-      split
-      · exact safe_crashOrErr known_tupleIndex
-      · rename_i g _
-        apply safe_bind (unmG_safe (core_safe fx proto e) g pd.1); intro _ _
-        exact ifsLoop_safe fx proto es (i+1) ds pd.2
+      simp only [List.length_cons] at h
+      apply safe_bind (tupleField_safe d); intro pd _
+      have hi : ds[i]? = some ds[i] := List.getElem?_eq_getElem (by omega)
+      rw [hi]
+      simp only []
+      apply safe_bind (unmG_safe (core_safe proto e) ds[i] pd.1); intro _ _
+      exact ifsLoop_safe proto es (i+1) ds pd.2 (by omega)
 
-theorem unmarshal_safe (fx : Bool) (proto : Nat) (t : CT) (dst : Dest) (d : Option Bytes) :
-    Safe fx (unmarshal fx proto t dst d) := by
+theorem unmarshal_safe (proto : Nat) (t : CT) (dst : Dest) (d : Option Bytes) :
+    Safe (unmarshal proto t dst d) := by
   unfold unmarshal
   split
-  · exact unmG_safe (core_safe fx proto t) _ _
-  · apply safe_bind (goType_safe fx t); intro g _
-    exact unmG_safe (core_safe fx proto t) _ _
+  · exact unmG_safe (core_safe proto t) _ _
+  · apply safe_bind (goType_safe t); intro g _
+    exact unmG_safe (core_safe proto t) _ _
   · split
     · split
       · simp
-      · exact ifsLoop_safe fx proto _ 0 _ _
+      · rename_i es _ hlen
+        exact ifsLoop_safe proto _ 0 _ _ (by simp at hlen; omega)
     · simp
 
 /-! ## Property theorems -/
 
-/-- Every crash of the value decoders (code as it is) is at one of the seven known sites: all the
-    other index / slice / make / reflect-index operations are in bounds, for every protocol
-    version, type tree, destination and byte string (no bound on sizes or depth). -/
-theorem C05_values_crash_sites (proto : Nat) (t : CT) (dst : Dest) (data : Option Bytes) (s : Site)
-    (h : unmarshal false proto t dst data = .crash s) : known s = true :=
-  (unmarshal_safe false proto t dst data s h).2
-
-/-- the inputs on which the code as it is crashes: the decoder reaches one of the known sites under
-    that site's condition (negative list length / field length beyond the data / short
-    `[]interface{}` / 1..3 byte date / unhashable Go map key / field type mismatch / unexported
-    field name). Decidable: it is a Bool. -/
-def knownBad (proto : Nat) (t : CT) (dst : Dest) (data : Option Bytes) : Bool :=
-  match unmarshal false proto t dst data with
-  | .crash s => known s
-  | _ => false
-
-/-- FULL: ∀ inputs, no crash. PARTIAL: outside `knownBad` there is no crash. -/
-theorem C05_values_total_partial (proto : Nat) (t : CT) (dst : Dest) (data : Option Bytes)
-    (h : knownBad proto t dst data = false) : ∀ s, unmarshal false proto t dst data ≠ .crash s := by
-  intro s hs
-  have hk := C05_values_crash_sites proto t dst data s hs
-  simp [knownBad, hs, hk] at h
-
-/-- exactness of the exclusion: every `knownBad` input does crash (at a known site) -/
-theorem C05_values_knownBad_exact (proto : Nat) (t : CT) (dst : Dest) (data : Option Bytes)
-    (h : knownBad proto t dst data = true) : ∃ s, unmarshal false proto t dst data = .crash s ∧ known s = true := by
-  unfold knownBad at h
-  split at h
-  · rename_i s hs; exact ⟨s, hs, h⟩
-  · cases h
-
-/-! ### site-local conditions (top-level shapes) -/
-
-/-- K1: a list/set with a negative 4-byte length (protocol >= 3) into any slice crashes in
-    reflect.MakeSlice, whatever the element type and the rest of the bytes -/
-theorem C05_list_negative_crashes (proto : Nat) (e : CT) (g : GT) (a b c x : UInt8) (rest : Bytes)
-    (hp : proto > 2) (hneg : i32 a b c x < 0) :
-    unmarshal false proto (.list e) (.val (.slice g)) (some (a :: b :: c :: x :: rest))
-      = .crash ⟨.unmarshalList, .reflectMakeslice⟩ := by
-  unfold unmarshal unmG
-  simp only [core]
-  unfold unmarshalList
-  simp only [seqKind]
-  rw [readCS4 proto a b c x rest hp, ok_bind, sliceFrom4, ok_bind]
-  simp [makeCount, hneg, crashOrErr]
-
-/-- K4: a date of 1, 2 or 3 bytes into a *time.Time crashes in binary.BigEndian.Uint32 -/
-theorem C05_date_short_crashes (proto : Nat) (d : Bytes) (h1 : 0 < d.length) (h3 : d.length < 4) :
-    unmarshal false proto (.nat .date) (.val (.sc .time)) (some d) = .crash ⟨.unmarshalDate, .index⟩ := by
-  have h0 : d.length ≠ 0 := by omega
-  have h4 : ¬ 3 < d.length := by omega
-  simp [unmarshal, unmG, core, scalar, fixGuard, h0, h4]
-
-/-- K2: readBytes (behind its `len >= 4` guard) crashes exactly when the declared length is
-    non-negative and exceeds what is left -/
-theorem C05_readBytes_crash_iff (a b c x : UInt8) (rest : Bytes) :
-    (∃ s, readBytes false (a :: b :: c :: x :: rest) = .crash s) ↔
-      (0 ≤ i32 a b c x ∧ rest.length < (i32 a b c x).toNat) := by
-  have h := readBytes_crash_iff_gen (a :: b :: c :: x :: rest) (i32 a b c x) (by simp) (readInt4 a b c x rest)
-  simpa using h
-
-/-- K3: a `[]interface{}` destination with fewer entries than the (non-empty prefix of the) tuple:
-    empty destination, any tuple with at least one element, empty data -/
-theorem C05_ifs_short_crashes (proto : Nat) (e : CT) (es : List CT) :
-    unmarshal false proto (.tuple (e :: es)) (.ifs []) (some []) = .crash ⟨.unmarshalTuple, .index⟩ := by
-  simp [unmarshal, ifsLoop, tupleField, crashOrErr]
+/-- FULL: no protocol version, type tree, destination and byte string (or NULL) makes `Unmarshal`
+    panic: every index / slice / make / reflect operation of marshal.go Unmarshal … unmarshalUDT and
+    helpers.go goType is in bounds (no bound on sizes or depth). -/
+theorem C05_values_total (proto : Nat) (t : CT) (dst : Dest) (data : Option Bytes) :
+    ∀ s, unmarshal proto t dst data ≠ .crash s :=
+  fun s hs => unmarshal_safe proto t dst data s hs
 
 /-! ### allocation: the element count handed to reflect.MakeSlice / MakeMapWithSize -/
 
-/-- code as it is: the count is NOT bounded by the data: with nothing left after the header,
-    MakeSlice is asked for 2^31-1 elements (allocation finding KF-C05-val-9) -/
-theorem C05_alloc_unbounded_cex : makeCount false 2147483647 0 4 = .ok 2147483647 := by decide
-
-/-- fixed (fix-15): what is allocated fits in the remaining bytes: count * header size <= bytes left -/
-theorem C05_alloc_bound_fixed (n : Int) (avail p cnt : Nat) (hp : 0 < p)
-    (h : makeCount true n avail p = .ok cnt) : cnt * p ≤ avail := by
+/-- what unmarshalList allocates fits in the remaining bytes: count * header size <= bytes left -/
+theorem C05_alloc_bound (n : Int) (avail p cnt : Nat) (hp : 0 < p)
+    (h : makeCount n avail p = .ok cnt) : cnt * p ≤ avail := by
   unfold makeCount at h
   split at h
-  · simp [crashOrErr] at h
+  · cases h
   · split at h
     · cases h
     · rename_i hg
-      simp only [Bool.true_and, decide_eq_true_eq, Nat.not_lt] at hg
+      simp only [Nat.not_lt] at hg
       cases h
       exact (Nat.le_div_iff_mul_le hp).mp hg
 
-theorem C05_map_alloc_bound_fixed (n : Int) (avail p cnt : Nat) (hp : 0 < p)
-    (h : makeMapCount true n avail p = .ok cnt) : cnt * (2 * p) ≤ avail := by
+theorem C05_map_alloc_bound (n : Int) (avail p cnt : Nat) (hp : 0 < p)
+    (h : makeMapCount n avail p = .ok cnt) : cnt * (2 * p) ≤ avail := by
   unfold makeMapCount at h
   split at h
   · cases h
   · split at h
     · cases h
     · rename_i hg
-      simp only [Bool.true_and, decide_eq_true_eq, Nat.not_lt] at hg
+      simp only [Nat.not_lt] at hg
       cases h
       exact (Nat.le_div_iff_mul_le (by omega)).mp hg
 
+/-- the model's allocation counter of a value decode (the element count asked of reflect.MakeSlice /
+    twice the entry count asked of reflect.MakeMapWithSize) times the header size is at most the bytes
+    of the value: for every protocol version, type, destination type and byte string -/
+theorem C05_top_alloc_bound (proto : Nat) (t : CT) (g : GT) (data : Option Bytes) :
+    topAllocCount proto t g data * hdr proto ≤ (data.getD []).length := by
+  unfold topAllocCount
+  split
+  · rename_i e d
+    split
+    · rcases readCollectionSize_cases proto d with h | ⟨n, p, h, hp, hp2⟩
+      · simp [h]
+      · simp only [h]
+        split
+        · rename_i c hc
+          have := C05_alloc_bound n (d.length - p) p c (by rw [hp2]; exact hdr_pos proto) hc
+          subst hp2
+          simp only [Option.getD]; omega
+        · simp
+    · simp
+  · rename_i k v d
+    split
+    · rcases readCollectionSize_cases proto d with h | ⟨n, p, h, hp, hp2⟩
+      · simp [h]
+      · simp only [h]
+        split
+        · rename_i c hc
+          have := C05_map_alloc_bound n (d.length - p) p c (by rw [hp2]; exact hdr_pos proto) hc
+          subst hp2
+          simp only [Option.getD]
+          have e : 2 * c * hdr proto = c * (2 * hdr proto) := by
+            rw [Nat.mul_comm 2 c, Nat.mul_assoc]
+          omega
+        · simp
+    · simp
+  · simp
+
 /-- a list body that cannot hold `cnt` element headers never decodes to `ok` (each element read
-    consumes at least one header): so fix-15 never turns a successful decode into an error, it only
-    refuses the allocation that precedes the inevitable `unexpected eof` -/
+    consumes at least one header): so the count guard never turns a successful decode into an error, it
+    only refuses the allocation that would precede the inevitable `unexpected eof` -/
 theorem listLoop_short_not_ok (proto : Nat) (f : Option Bytes → Outcome) (len : Nat) :
     ∀ (cnt i : Nat) (d : Bytes), d.length < cnt * hdr proto → listLoop proto f len cnt i d ≠ .ok ()
   | 0, _, _, h => by simp at h
@@ -298,84 +251,58 @@ theorem listLoop_short_not_ok (proto : Nat) (f : Option Bytes → Outcome) (len 
           | crash s => simp
         · simp
 
-/-- fix-15 is conservative: whenever the fixed `makeCount` refuses a non-negative count, the code as
-    it is does not return ok either -/
-theorem C05_fix7_conservative (proto : Nat) (f : Option Bytes → Outcome) (n : Int) (d : Bytes)
-    (hn : 0 ≤ n) (hrej : makeCount true n d.length (hdr proto) = .err) :
+/-- the count guard is conservative: whenever `makeCount` refuses a non-negative count, the element
+    loop over the same bytes would not have returned ok either -/
+theorem C05_count_guard_conservative (proto : Nat) (f : Option Bytes → Outcome) (n : Int) (d : Bytes)
+    (hn : 0 ≤ n) (hrej : makeCount n d.length (hdr proto) = .err) :
     listLoop proto f n.toNat n.toNat 0 d ≠ .ok () := by
   apply listLoop_short_not_ok
   unfold makeCount at hrej
   have hneg : ¬ n < 0 := by omega
-  simp only [hneg, if_false, Bool.true_and, decide_eq_true_eq] at hrej
+  simp only [hneg, if_false] at hrej
   split at hrej
   · rename_i hg
     exact (Nat.div_lt_iff_lt_mul (hdr_pos proto)).mp hg
   · cases hrej
 
-/-! ### kernel-checked counterexamples: one per known site (replay inputs of the real code) -/
+/-! ### regression: the inputs that crashed the code before the repairs (the `ops` of KF-C05-12, 15-19,
+    21; replayed on the real code by the check) are errors now -/
 
-/-- `val 4 list(int) slice(int) fffffffe`: list length −2 into a slice -/
-theorem C05_cex_list_negative_length :
-    unmarshal false 4 (.list (.nat .int)) (.val (.slice (.sc .int))) (some [0xff, 0xff, 0xff, 0xfe])
-      = .crash ⟨.unmarshalList, .reflectMakeslice⟩ := by decide
-
-/-- `val 4 tuple(int,int) ifs(int,int) 0000000901`: tuple field length 9 with 1 byte left -/
-theorem C05_cex_tuple_field_beyond_data :
-    unmarshal false 4 (.tuple [.nat .int, .nat .int]) (.ifs [.sc .int, .sc .int]) (some [0, 0, 0, 9, 1])
-      = .crash ⟨.readBytes, .slice⟩ := by decide
-
-/-- `val 4 udt(a:int) def 0000000901`: UDT field length 9 with 1 byte left, default destination -/
-theorem C05_cex_udt_field_beyond_data :
-    unmarshal false 4 (.udt [(97, .nat .int)]) .deflt (some [0, 0, 0, 9, 1])
-      = .crash ⟨.readBytes, .slice⟩ := by decide
-
-/-- `val 4 tuple(int,int) ifs(int) 0000000400000001`: `[]interface{}` shorter than the tuple -/
-theorem C05_cex_short_interface_slice :
-    unmarshal false 4 (.tuple [.nat .int, .nat .int]) (.ifs [.sc .int]) (some [0, 0, 0, 4, 0, 0, 0, 1])
-      = .crash ⟨.unmarshalTuple, .index⟩ := by decide
-
-/-- `val 4 date time 01`: one-byte date -/
-theorem C05_cex_date_short :
-    unmarshal false 4 (.nat .date) (.val (.sc .time)) (some [1]) = .crash ⟨.unmarshalDate, .index⟩ := by decide
+theorem C05_former_witnesses_are_errors :
+    -- KF-C05-15 `val 4 list(int) slice(int) fffffffe`: list length −2 into a slice
+    unmarshal 4 (.list (.nat .int)) (.val (.slice (.sc .int))) (some [0xff, 0xff, 0xff, 0xfe]) = .err
+    -- KF-C05-12 `val 4 tuple(int,int) ifs(int,int) 0000000901`: tuple field length 9 with 1 byte left
+    ∧ unmarshal 4 (.tuple [.nat .int, .nat .int]) (.ifs [.sc .int, .sc .int]) (some [0, 0, 0, 9, 1]) = .err
+    -- KF-C05-12 `val 4 udt(a:int) def 0000000901`
+    ∧ unmarshal 4 (.udt [(97, .nat .int)]) .deflt (some [0, 0, 0, 9, 1]) = .err
+    -- KF-C05-16 `val 4 tuple(int,int) ifs(int) 0000000400000001`: `[]interface{}` shorter than the tuple
+    ∧ unmarshal 4 (.tuple [.nat .int, .nat .int]) (.ifs [.sc .int]) (some [0, 0, 0, 4, 0, 0, 0, 1]) = .err
+    -- KF-C05-17 `val 4 date time 01`: one-byte date
+    ∧ unmarshal 4 (.nat .date) (.val (.sc .time)) (some [1]) = .err
+    -- KF-C05-18 `val 4 tuple(int) struct(A:int64) -`: struct field type differs from goType(int) = int
+    ∧ unmarshal 4 (.tuple [.nat .int]) (.val (.struct [(65, false, .sc .int64)])) (some []) = .err
+    -- KF-C05-19 `val 4 udt(wall:int) time 0000000400000001`: UDT field named like an unexported field
+    ∧ unmarshal 4 (.udt [(nameCode ['w','a','l','l'], .nat .int)]) (.val (.sc .time))
+        (some [0, 0, 0, 4, 0, 0, 0, 1]) = .err
+    -- KF-C05-21 huge count, tiny body: rejected BEFORE reflect.MakeSlice (`makeCount` = err)
+    ∧ unmarshal 4 (.list (.nat .int)) (.val (.slice (.sc .int))) (some [0x7f, 0xff, 0xff, 0xff]) = .err
+    ∧ makeCount 2147483647 0 4 = .err := by
+  decide
 
 /-- `val 4 map(blob,int) def 00000000`: the default destination of map<blob,int> cannot be built —
-an ERROR since /repo commit c637d3e (it was a reflect.MapOf panic, former finding val-5) -/
+an ERROR since /repo commit c637d3e (it was a reflect.MapOf panic, KF-C05-14) -/
 theorem C05_gotype_blob_key_is_error :
-    unmarshal false 4 (.map (.nat .blob) (.nat .int)) .deflt (some [0, 0, 0, 0]) = .err ∧
-    unmarshal false 4 (.tuple [.map (.nat .blob) (.nat .int)]) (.val (.slice (.sc .iface))) (some []) = .err := by
+    unmarshal 4 (.map (.nat .blob) (.nat .int)) .deflt (some [0, 0, 0, 0]) = .err ∧
+    unmarshal 4 (.tuple [.map (.nat .blob) (.nat .int)]) (.val (.slice (.sc .iface))) (some []) = .err := by
   decide
 
-/-- `val 4 tuple(int) struct(A:int64) -`: struct field type differs from goType(int) = int -/
-theorem C05_cex_tuple_field_type :
-    unmarshal false 4 (.tuple [.nat .int]) (.val (.struct [(65, false, .sc .int64)])) (some [])
-      = .crash ⟨.unmarshalTuple, .reflect⟩ := by decide
+/-! ### non-vacuity: the decoders still decode (they are not the constant `err`) -/
 
-/-- `val 4 udt(wall:int) time 0000000400000001`: UDT field named like an unexported field of time.Time -/
-theorem C05_cex_udt_unexported_field :
-    unmarshal false 4 (.udt [(nameCode ['w','a','l','l'], .nat .int)]) (.val (.sc .time))
-      (some [0, 0, 0, 4, 0, 0, 0, 1]) = .crash ⟨.unmarshalUDT, .reflect⟩ := by decide
-
-/-- huge count, tiny body: the decoder answers `err` (no crash) but only after MakeSlice(2^31-1):
-    the element count is not bounded by the data (allocation finding, see findings) -/
-theorem C05_huge_count_is_error :
-    unmarshal false 4 (.list (.nat .int)) (.val (.slice (.sc .int))) (some [0x7f, 0xff, 0xff, 0xff]) = .err := by
+example : unmarshal 4 (.list (.nat .int)) (.val (.slice (.sc .int))) (some [0,0,0,1, 0,0,0,4, 0,0,0,7]) = .ok () := by
   decide
-
-/-! ### non-vacuity -/
-
-example : known ⟨.unmarshalList, .slice⟩ = false := by decide          -- `data[p:]` in unmarshalList is NOT excluded
-example : known ⟨.readCollectionSize, .index⟩ = false := by decide
-example : known ⟨.unmarshalTuple, .reflectBounds⟩ = false := by decide
--- C05_values_crash_sites: its hypothesis is satisfiable
-example : ∃ p t d b s, unmarshal false p t d b = .crash s := ⟨_, _, _, _, _, C05_cex_list_negative_length⟩
--- C05_values_total_partial: the hypothesis holds on a well-formed value (and the outcome is ok)
-example : knownBad 4 (.list (.nat .int)) (.val (.slice (.sc .int))) (some [0,0,0,1, 0,0,0,4, 0,0,0,7]) = false := by decide
-example : unmarshal false 4 (.list (.nat .int)) (.val (.slice (.sc .int))) (some [0,0,0,1, 0,0,0,4, 0,0,0,7]) = .ok () := by
-  decide
--- C05_values_knownBad_exact: hypothesis satisfiable
-example : knownBad 4 (.nat .date) (.val (.sc .time)) (some [1]) = true := by decide
--- site-local lemmas: hypotheses satisfiable
-example : i32 0xff 0xff 0xff 0xfe < 0 := by decide
-example : 0 ≤ i32 0 0 0 9 ∧ ([1] : Bytes).length < (i32 0 0 0 9).toNat := by decide
+example : unmarshal 4 (.tuple [.nat .int, .nat .text]) (.ifs [.sc .int, .sc .string])
+    (some [0,0,0,4, 0,0,0,7, 0,0,0,1, 0x61]) = .ok () := by decide
+example : unmarshal 4 (.nat .date) (.val (.sc .time)) (some [0x80, 0, 0, 1]) = .ok () := by decide
+example : makeCount 1 8 4 = .ok 1 := by decide
 
 end C05Value
